@@ -25,6 +25,7 @@ package sshd
 //@ pred FromLine(c, v) := contains(c.logEntry, v) || Placeholder(v)
 //@ pred SubjectsFromLine(c, i) := forall k string :: has(out[i].Subjects, k) && k != "pid" ==> FromLine(c, out[i].Subjects[k])
 //@ pred OneCount(l1, l2) := ctrsum == old(ctrsum) + 1 && ctr(l1, l2) == old(ctr(l1, l2)) + 1
+//@   | && (forall a string, b string :: !(a == l1 && b == l2) ==> ctr(a, b) == old(ctr(a, b)))
 //@ pred Keyword(line) := prefixof("Accepted publickey", line) || prefixof("Accepted password", line)
 //@   | || prefixof("Certificate invalid", line) || prefixof("Invalid user", line) || prefixof("User ", line)
 //@   | || prefixof("ROOT LOGIN REFUSED FROM ", line) || prefixof("Authentication refused for ", line)
@@ -342,3 +343,116 @@ package sshd
 //@   ensures[nosend] sentlen(config.logins) == old(sentlen(config.logins))
 //@   ensures[ctr] len(out) == old(len(out)) + 1 ==> OneCount("unknown", "failure")
 //@   ensures[ctr0] !matches(invalidUserRE, config.logEntry) ==> ctrsum == old(ctrsum)
+
+//@ pred DataHas(i, k, v) := out[i].Data != nil && has(jsonmap(out[i].Data), k) && jsonmap(out[i].Data)[k] == v
+//@ pred SentLogin(c, s0, n, cred) := sent(c.logins, s0).Source == out[n].ref && sent(c.logins, s0).PID == atoival(c.pid)
+//@   | && sent(c.logins, s0).CredUserID == cred && sent(c.logins, s0).stamp == n + 1 && out[n].Outcome == "succeeded"
+
+//@ func processAcceptedPasswordEntry
+//@   requires CfgOK(config)
+//@   modifies out, chans
+//@   allocates
+//@   ensures[err] result != nil ==> len(out) == old(len(out)) && wfailed && sentlen(config.logins) == old(sentlen(config.logins))
+//@   ensures[one] len(out) == old(len(out)) || len(out) == old(len(out)) + 1
+//@   ensures[sendone] sentlen(config.logins) == old(sentlen(config.logins)) || sentlen(config.logins) == old(sentlen(config.logins)) + 1
+//@   ensures[cancel] len(out) == old(len(out)) + 1 && sentlen(config.logins) == old(sentlen(config.logins)) ==> cancelled(config.ctx)
+//@   ensures[sub] len(out) == old(len(out)) + 1 ==> SubjectsFromLine(config, old(len(out))) && FromLine(config, out[old(len(out))].Source.Value)
+//@   ensures[match] result == nil && matches(passwordLoginRE, config.logEntry) && atoiok(config.pid) ==> len(out) == old(len(out)) + 1
+//@   ensures[only] len(out) == old(len(out)) + 1 ==> matches(passwordLoginRE, config.logEntry) && atoiok(config.pid) && result == nil
+//@   ensures[fields] len(out) == old(len(out)) + 1 ==> Std(config, old(len(out)), "succeeded")
+//@   |   && Subj(old(len(out)), "loggedAs", group(passwordLoginRE, config.logEntry, "Username")) && Subj(old(len(out)), "userID", "unknown")
+//@   |   && out[old(len(out))].Source.Value == group(passwordLoginRE, config.logEntry, "Source") && SrcExtra(old(len(out)), "port", group(passwordLoginRE, config.logEntry, "Port"))
+//@   ensures[send] sentlen(config.logins) == old(sentlen(config.logins)) + 1 ==> len(out) == old(len(out)) + 1 && SentLogin(config, old(sentlen(config.logins)), old(len(out)), "unknown")
+//@   ensures[ctr] ctrsum == old(ctrsum)
+
+//@ pred PKRest(line) := substr(line, len(group(loginRE, line, "0")) + 1, len(line) - len(group(loginRE, line, "0")) - 1)
+//@ pred PKPlain(line) := len(line) == len(group(loginRE, line, "0"))
+//@ pred PKCert(line) := !PKPlain(line) && matches(certIDRE, PKRest(line))
+//@ pred PKCred(line) := ite(PKCert(line), group(certIDRE, PKRest(line), "UserID"), "unknown")
+
+//@ func processAcceptPublicKeyEntry
+//@   requires CfgOK(config)
+//@   modifies out, ctr, chans
+//@   allocates
+//@   ensures[err] result != nil ==> len(out) == old(len(out)) && wfailed && sentlen(config.logins) == old(sentlen(config.logins))
+//@   ensures[one] len(out) == old(len(out)) || len(out) == old(len(out)) + 1
+//@   ensures[sendone] sentlen(config.logins) == old(sentlen(config.logins)) || sentlen(config.logins) == old(sentlen(config.logins)) + 1
+//@   ensures[cancel] len(out) == old(len(out)) + 1 && sentlen(config.logins) == old(sentlen(config.logins)) ==> cancelled(config.ctx)
+//@   ensures[sub] len(out) == old(len(out)) + 1 ==> SubjectsFromLine(config, old(len(out))) && FromLine(config, out[old(len(out))].Source.Value)
+//@   ensures[match] result == nil && matches(loginRE, config.logEntry) && atoiok(config.pid) ==> len(out) == old(len(out)) + 1
+//@   ensures[only] len(out) == old(len(out)) + 1 ==> matches(loginRE, config.logEntry) && atoiok(config.pid) && result == nil
+//@   ensures[fields] len(out) == old(len(out)) + 1 ==> Std(config, old(len(out)), "succeeded")
+//@   |   && Subj(old(len(out)), "loggedAs", group(loginRE, config.logEntry, "Username")) && Subj(old(len(out)), "userID", PKCred(config.logEntry))
+//@   |   && out[old(len(out))].Source.Value == group(loginRE, config.logEntry, "Source") && SrcExtra(old(len(out)), "port", group(loginRE, config.logEntry, "Port"))
+//@   |   && DataHas(old(len(out)), "Alg", group(loginRE, config.logEntry, "Alg")) && DataHas(old(len(out)), "SSHKeySum", group(loginRE, config.logEntry, "SSHKeySum"))
+//@   ensures[certdata] len(out) == old(len(out)) + 1 && PKCert(config.logEntry) ==>
+//@   |   DataHas(old(len(out)), "Serial", group(certIDRE, PKRest(config.logEntry), "Serial")) && DataHas(old(len(out)), "CA", group(certIDRE, PKRest(config.logEntry), "CA"))
+//@   ensures[send] sentlen(config.logins) == old(sentlen(config.logins)) + 1 ==> len(out) == old(len(out)) + 1 && SentLogin(config, old(sentlen(config.logins)), old(len(out)), PKCred(config.logEntry))
+//@   ensures[ctr] len(out) == old(len(out)) + 1 ==> OneCount(ite(PKPlain(config.logEntry), "ssh-key", "ssh-cert"), "success")
+//@   ensures[ctr0] !matches(loginRE, config.logEntry) || !atoiok(config.pid) ==> ctrsum == old(ctrsum)
+//@   ensures[ctr1] ctrsum == old(ctrsum) || ctrsum == old(ctrsum) + 1
+
+//@ pred CertReason(line) := ite(len(line) <= 21, "unknown reason", substr(line, 21, len(line) - 21))
+
+//@ func processCertificateInvalidEntry
+//@   requires CfgOK(config)
+//@   modifies out, ctr
+//@   allocates
+//@   ensures[err] result != nil ==> len(out) == old(len(out)) && wfailed
+//@   ensures[one] len(out) == old(len(out)) || len(out) == old(len(out)) + 1
+//@   ensures[match] result == nil ==> len(out) == old(len(out)) + 1
+//@   ensures[only] len(out) == old(len(out)) + 1 ==> result == nil
+//@   ensures[fields] len(out) == old(len(out)) + 1 ==> Std(config, old(len(out)), "failed")
+//@   |   && Subj(old(len(out)), "loggedAs", "unknown") && Subj(old(len(out)), "userID", "unknown")
+//@   |   && out[old(len(out))].Source.Value == "unknown" && SrcExtra(old(len(out)), "port", "unknown")
+//@   |   && DataHas(old(len(out)), "error", "certificate invalid") && DataHas(old(len(out)), "reason", CertReason(config.logEntry))
+//@   ensures[sub] len(out) == old(len(out)) + 1 ==> SubjectsFromLine(config, old(len(out))) && FromLine(config, out[old(len(out))].Source.Value)
+//@   |   && FromLine(config, CertReason(config.logEntry))
+//@   ensures[nosend] sentlen(config.logins) == old(sentlen(config.logins))
+//@   ensures[ctr] OneCount("ssh-cert", "failure")
+
+//@ func ProcessEntry
+//@   requires CfgOK(config)
+//@   modifies out, ctr, chans
+//@   allocates
+//@   ensures[err] result != nil ==> wfailed && len(out) == old(len(out)) && sentlen(config.logins) == old(sentlen(config.logins))
+//@   ensures[one] len(out) == old(len(out)) || len(out) == old(len(out)) + 1
+//@   ensures[sendone] sentlen(config.logins) == old(sentlen(config.logins)) || sentlen(config.logins) == old(sentlen(config.logins)) + 1
+//@   ensures[send] sentlen(config.logins) == old(sentlen(config.logins)) + 1 ==> len(out) == old(len(out)) + 1 && out[old(len(out))].Outcome == "succeeded"
+//@   |   && sent(config.logins, old(sentlen(config.logins))).Source == out[old(len(out))].ref && sent(config.logins, old(sentlen(config.logins))).stamp == old(len(out)) + 1
+//@   |   && sent(config.logins, old(sentlen(config.logins))).PID == atoival(config.pid)
+//@   ensures[cancel] len(out) == old(len(out)) + 1 && out[old(len(out))].Outcome == "succeeded" && sentlen(config.logins) == old(sentlen(config.logins)) ==> cancelled(config.ctx)
+//@   ensures[failnosend] len(out) == old(len(out)) + 1 && out[old(len(out))].Outcome != "succeeded" ==> sentlen(config.logins) == old(sentlen(config.logins))
+//@   ensures[outcome] len(out) == old(len(out)) + 1 ==> (out[old(len(out))].Outcome == "succeeded" <==> prefixof("Accepted p", config.logEntry))
+//@   |   && (out[old(len(out))].Outcome == "succeeded" || out[old(len(out))].Outcome == "failed")
+//@   ensures[keyword] len(out) == old(len(out)) + 1 ==> Keyword(config.logEntry)
+//@   ensures[event] len(out) == old(len(out)) + 1 ==> out[old(len(out))].Type == "UserLogin" && out[old(len(out))].Component == "sshd" && out[old(len(out))].LoggedAt == config.when
+//@   |   && Subj(old(len(out)), "pid", config.pid) && has(out[old(len(out))].Target, "host") && out[old(len(out))].Target["host"] == config.nodeName
+//@   |   && has(out[old(len(out))].Target, "machine-id") && out[old(len(out))].Target["machine-id"] == config.machineID
+//@   ensures[sub] len(out) == old(len(out)) + 1 ==> SubjectsFromLine(config, old(len(out))) && FromLine(config, out[old(len(out))].Source.Value)
+//@   ensures[ctr] len(out) == old(len(out)) + 1 ==> ctrsum == old(ctrsum) + 1
+//@   ensures[ctrlabel] len(out) == old(len(out)) + 1 ==>
+//@   |   ite(out[old(len(out))].Outcome == "succeeded",
+//@   |       ite(prefixof("Accepted password", config.logEntry), ctr("password", "success") == old(ctr("password", "success")) + 1,
+//@   |           ctr("ssh-key", "success") == old(ctr("ssh-key", "success")) + 1 || ctr("ssh-cert", "success") == old(ctr("ssh-cert", "success")) + 1),
+//@   |       ctr("unknown", "failure") == old(ctr("unknown", "failure")) + 1 || ctr("ssh-cert", "failure") == old(ctr("ssh-cert", "failure")) + 1)
+//@   ensures[nokw] !Keyword(config.logEntry) ==> ctrsum == old(ctrsum) && len(out) == old(len(out))
+
+//@ func (*SshdProcessorer).ProcessSshdLogEntry
+//@   requires s != nil && s.metrics != nil && s.metrics.remoteLogins != nil && s.eventW != nil && ctx != nil
+//@   modifies out, ctr, chans
+//@   allocates
+//@   ensures[err] result != nil ==> wfailed && len(out) == old(len(out)) && sentlen(s.logins) == old(sentlen(s.logins))
+//@   ensures[one] len(out) == old(len(out)) || len(out) == old(len(out)) + 1
+//@   ensures[sendone] sentlen(s.logins) == old(sentlen(s.logins)) || sentlen(s.logins) == old(sentlen(s.logins)) + 1
+//@   ensures[send] sentlen(s.logins) == old(sentlen(s.logins)) + 1 ==> len(out) == old(len(out)) + 1 && out[old(len(out))].Outcome == "succeeded"
+//@   |   && sent(s.logins, old(sentlen(s.logins))).Source == out[old(len(out))].ref && sent(s.logins, old(sentlen(s.logins))).stamp == old(len(out)) + 1
+//@   |   && sent(s.logins, old(sentlen(s.logins))).PID == atoival(sm.PID)
+//@   ensures[cancel] len(out) == old(len(out)) + 1 && out[old(len(out))].Outcome == "succeeded" && sentlen(s.logins) == old(sentlen(s.logins)) ==> cancelled(ctx)
+//@   ensures[keyword] len(out) == old(len(out)) + 1 ==> Keyword(sm.Message)
+//@   ensures[event] len(out) == old(len(out)) + 1 ==> out[old(len(out))].Type == "UserLogin" && out[old(len(out))].Component == "sshd"
+//@   |   && old(clock) <= out[old(len(out))].LoggedAt && out[old(len(out))].LoggedAt <= clock
+//@   |   && Subj(old(len(out)), "pid", sm.PID) && has(out[old(len(out))].Target, "host") && out[old(len(out))].Target["host"] == s.nodeName
+//@   |   && has(out[old(len(out))].Target, "machine-id") && out[old(len(out))].Target["machine-id"] == s.machineID
+//@   ensures[ctr] len(out) == old(len(out)) + 1 ==> ctrsum == old(ctrsum) + 1
+//@   ensures[nokw] !Keyword(sm.Message) ==> ctrsum == old(ctrsum) && len(out) == old(len(out))
